@@ -131,7 +131,7 @@ func runC15(c *Ctx) {
 	ruleJoinedErrWhole(c, "PARALLEL-ERR-WHOLE", c.P.ModulePkgs(), 6)
 	// the module cache's archive object is requested atomically (shared with C09 MARKER-ATOMIC)
 	c15AtomicKept(c)
-	ruleWriteSwallow(c, "R-WRITE-SWALLOW", c.P.ModulePkgs())
+	ruleWriteSwallow(c, "R-WRITE-SWALLOW", c.P.ModulePkgs(), 50)
 	ruleErrAllPaths(c, "R-ERRSEEN", c.P.ModulePkgs())
 	c.Rule("ATOMIC-REQUESTED", "objects whose presence means \"complete\" to a reader are written with the atomic option", 1)
 	c09MarkerLastShared(c, "MARKER-LAST")
